@@ -10,7 +10,7 @@ use clock_bound_shm::verif::{set_handler, Point};
 use clock_bound_shm::{ShmReader, ShmWrite, ShmWriter};
 use shmsim::history::{Counters, Violation, ACCESS_BOUND};
 use shmsim::record::{decode, encode, segment_bytes, Decoded};
-use shmsim::sched::{install_quiet_panic_hook, run_scenario, Outcome, ReaderProg, Scenario, Start, WOp};
+use shmsim::sched::{install_quiet_panic_hook, run_scenario, Env, Outcome, ReaderProg, Scenario, Start, WOp};
 use vworld::serde_json::Value;
 use vworld::{arg_str, arg_u64, json, parse_args, Rng};
 
@@ -143,7 +143,7 @@ fn gen_scenario(seed: u64, focus: &str) -> Scenario {
             pauses.push((*rng.pick(&pubs), 2 + rng.below(10), 2 + rng.below(3)));
         }
     }
-    Scenario { seed, start, writer, stops, pauses, readers, writer_den: pick_den(&mut rng), reader_den: pick_den(&mut rng) }
+    Scenario { seed, start, writer, stops, pauses, readers, writer_den: pick_den(&mut rng), reader_den: pick_den(&mut rng), env: Env::random(&mut rng) }
 }
 
 #[derive(Default)]
@@ -160,6 +160,7 @@ struct Agg {
     c11_observations: u64,
     stops_by_site: BTreeMap<String, u64>,
     starts: BTreeMap<String, u64>,
+    envs: BTreeMap<String, u64>,
     violations: Vec<Value>,
     other_property_violations: u64,
     samples: Vec<Value>,
@@ -169,6 +170,7 @@ impl Agg {
     fn add(&mut self, sc: &Scenario, out: &Outcome, property: &str, replay_dir: &str, tag: &str) {
         self.scenarios += 1;
         *self.starts.entry(sc.start.name().to_string()).or_insert(0) += 1;
+        *self.envs.entry(sc.env.name()).or_insert(0) += 1;
         if out.inconclusive.is_some() {
             self.inconclusive += 1;
         }
@@ -251,6 +253,7 @@ impl Agg {
             "c11_observations": self.c11_observations,
             "stops_by_site": self.stops_by_site,
             "starts": self.starts,
+            "environments": self.envs,
             "violations": self.violations,
             "other_property_violations": self.other_property_violations,
             "samples": self.samples,
@@ -324,7 +327,7 @@ fn mode_stopenum(args: &std::collections::HashMap<String, String>) -> Value {
     let mut job = 0u64;
     for (si, start) in enum_starts().iter().enumerate() {
         // Discover the writer's points for this start state: a dry run, no readers, no stops.
-        let probe = Scenario { seed: 0, start: start.clone(), writer: enum_program(), stops: vec![], pauses: vec![], readers: vec![], writer_den: 0, reader_den: 0 };
+        let probe = Scenario { seed: 0, start: start.clone(), writer: enum_program(), stops: vec![], pauses: vec![], readers: vec![], writer_den: 0, reader_den: 0, env: Env::default() };
         let dry = run_scenario(&probe, &dir, true, false);
         let mut per_op: BTreeMap<usize, u64> = BTreeMap::new();
         for (op, k, _site) in dry.writer_sites.iter() {
@@ -359,6 +362,7 @@ fn mode_stopenum(args: &std::collections::HashMap<String, String>) -> Value {
                         readers: (0..nreaders).map(|_| ReaderProg { start_after_p: if rng.chance(2, 3) { 0 } else { p0 + rng.below(3) }, calls: 2 + rng.below(8) as u32 }).collect(),
                         writer_den: pick_den(&mut rng),
                         reader_den: pick_den(&mut rng),
+                        env: Env::random(&mut rng),
                     };
                     let out = run_scenario(&sc, &dir, false, true);
                     if let Some((_, site, opname)) = out.stopped_sites.first() {
